@@ -119,6 +119,16 @@ def check(case, rec):
             case["open"], type(e).__name__, e, key.hex(), [(b["kind"], b.get("version"), b.get("sel")) for b in blocks]))
     if g.session_key != key:
         raise Violation("session key read back as %s, written %s" % (bytes(g.session_key).hex(), key.hex()))
+    # history: a SECOND file written with the same encryptor objects must be readable by FRESH decryptor objects, and the first file again by the used ones
+    if case.get("second_write", True):
+        try:
+            text2, src2 = sut.write_text(lambda t: bec.write_file(t, writers), "stream")
+            g2 = sut.Bec2File.read_file(src2(), [sut.mk_encryptor(blocks[i]) for i in case["open"]])
+            g3 = sut.Bec2File.read_file(src() if case["route"] == "stream" else src2(), decryptors)
+        except Exception as e:
+            raise Violation("second write with the same encryptor objects / re-read with the same decryptor objects failed: %s: %s" % (type(e).__name__, e))
+        if g2.session_key != key or g3.session_key != key:
+            raise Violation("second write/read with reused encryptor objects recovers a different session key")
     got_blocks = [sut.obs_authblock(ab) for ab in g.auth_blocks.values()]
     if len(got_blocks) != len(blocks):
         raise Violation("auth blocks: wrote %d read %d" % (len(blocks), len(got_blocks)))
